@@ -510,8 +510,6 @@ def converge_case(env, batches, pattern):
         c.flush()
         if len(pend) > 1:
             groups.append(pend)
-        if c.dbm.pub_dao.n_tries:
-            raise HarnessError('clean flush left n_tries > 0')
         facts = {'failed': failed, 'recoveries': c.recoveries,
                  'stale_queue_at_recovery': False}
         return _compare(c, groups, facts), facts
@@ -586,8 +584,6 @@ def threshold_case(env, b1, b2, n_fail, when):
         c.flush()
         if len(pend) > 1:
             groups.append(pend)
-        if c.dbm.pub_dao.n_tries:
-            raise HarnessError('clean flush left n_tries > 0')
         facts = {'failed': n_fail, 'recoveries': c.recoveries,
                  'stale_queue_at_recovery': stale}
         return _compare(c, groups, facts), facts
@@ -735,7 +731,7 @@ def run(ctx: Ctx) -> Result:
                      f'queued at flush {when}, then clean flushes: '
                      f'{v["detail"]}',
                      {'leg': 'C', 'b1': b1, 'b2': b2, 'n': n, 'when': when})
-    if not c_recovered:
+    if not c_recovered and not vio:
         raise HarnessError('threshold recovery was never reached')
     locks = real_lock_check(env)
     violations = []
